@@ -109,7 +109,14 @@ def main():
             if isinstance(expected, str):
                 expected = [expected]
             run = props or (expected if expected else ALL)
-            entry["checks"] = run_checks(run)
+            # partial re-runs refine an earlier entry instead of replacing it
+            prev = results.get(mid, {})
+            if not with_tests:
+                for k in ("existing_tests", "existing_tests_summary"):
+                    if k in prev:
+                        entry[k] = prev[k]
+            entry["checks"] = dict(prev.get("checks", {}))
+            entry["checks"].update(run_checks(run))
             entry["fired"] = sorted(p for p, v in entry["checks"].items() if v["rc"] == 1)
             entry["expected"] = expected
             entry["detected"] = bool(entry["fired"])
